@@ -41,6 +41,9 @@ CHECKS = {
  "C18": dict(level="exploration", ref="7/C18",
    text="Real LMTP client against the real LMTP server with a per-recipient backend: the systematic product 1-3 consecutive transactions x {LMTPData with callback, Data without} with drawn recipient counts, RCPT-time refusals and per-recipient verdict vectors. Oracles: in transaction t the callback fires exactly once per recipient accepted in t, in order, with that recipient's code; Close returns within one fake minute (a Close waiting for replies that never come costs 12 fake minutes and is caught on the fake clock); without a callback any post-DATA refusal makes Close return an *SMTPError; the NOOP after each transaction gets its own reply.",
    note="Timing is judged on the fake clock only as 'well before SubmissionTimeout' (one minute)."),
+ "C09": dict(level="exploration", ref="7/C09",
+   text="Server half: the full product TLS {plaintext, after STARTTLS, implicit} x AllowInsecureAuth x backend {AuthSession, plain} in every batch, scripted 1-3 step sasl.Server, 1-3 AUTH attempts per connection that go straight, send bad base64 or '*' at a drawn step, name an unknown mechanism or cut the connection, AUTH before the greeting and STARTTLS between attempts. Oracles: AUTH advertised exactly when the connection permits it and the backend supports it; on a non-permitted connection AUTH is 5xx and neither Session.Auth nor sasl.Server.Next is ever called; otherwise Next receives exactly the base64-decoded octets in order (nil for no initial response, empty for '='); after 235 every AUTH is 503 with no backend call until STARTTLS; after a failed/malformed/cancelled exchange the NOOP marker is executed and a fresh AUTH is not 503. Client half: real Client.Auth with a scripted sasl.Client against the same real server (plaintext, STARTTLS, implicit TLS): responses and challenges recorded on both sides agree octet for octet, a mechanism error cancels with '*' and the next NOOP succeeds, Auth returns nil iff the server ended with 235, else an *SMTPError with its code.",
+   note="nil (as opposed to empty) responses from a client mechanism are not generated. Reply codes of failed exchanges are judged only as 'not positive'."),
  "C01": dict(level="exploration", ref="7/C01",
    text="Seeded search plus a systematic sweep of all 5461 bodies over the byte classes {'.',CR,LF,other} up to length 6, each run under a drawn transport segmentation, server short-read plan and backend read-size plan; the octets and terminal error the real dataReader hands the backend are compared with an RFC 5321 reference unstuffer. Sampling, not proof: evidence of byte-exactness over the explored streams x schedules.",
    note="Trusts: the reference unstuffer (cross-checked against a reference stuffer), Go's testing/synctest fake clock, go1.26.8 building go-smtp the same way go1.23.5 does."),
